@@ -1,4 +1,5 @@
 import FstVerif.Proofs.EndToEnd
+import FstVerif.Proofs.Glue
 /-
 C06 — builders enforce the ordering contract; rejected inserts leave no trace.
 Statements here; proofs in Proofs/Build.lean (`insert_result`, `add_result`
@@ -63,5 +64,21 @@ theorem C06_extend_continues (s s' : BState) (kv : Key × Nat) (rest : KV)
   simp [insertAll, h]
 
 example : Reachable (BState.new 2 2) := Reachable.new 2 2
+
+
+/-! ### by-reference iterators (`b.extend_iter(&mut it)` again after each error; Model/Glue.lean) -/
+
+/-- handing the SAME iterator to `extend_iter` again and again until it is exhausted loses nothing
+but the rejected items: the builder ends in the state the single calls reach (a rejected call
+leaves it alone), and the successive calls return exactly the errors of the rejected items, in
+order, followed by `Ok` -/
+theorem C06_resume (s : BState) (calls : List BCall) :
+    (s.resume calls []).1 = calls.foldl Glue.step s ∧
+    (s.resume calls []).2 = Glue.rejections s calls ++ [.ok ()] := Glue.resume_spec s calls
+
+/-- with no rejected item, one `extend_iter` call is the insert loop -/
+theorem C06_resume_all_accepted (s : BState) (kvs : KV) (h : Glue.rejections s (Glue.insCalls kvs) = []) :
+    ∃ final, s.resume (Glue.insCalls kvs) [] = (final, [.ok ()]) ∧ s.extendInsert kvs = (final, .ok ()) ∧
+      final = (Glue.insCalls kvs).foldl Glue.step s := Glue.resume_ins_eq_extendInsert s kvs h
 
 end Fst.Props
